@@ -66,7 +66,8 @@ def pad(array, shape):
     else:
         rmin0 = 0
         rmax0 = array.shape[0+offset]
-        rmin1 = (shape[0] - array.shape[0+offset])//2
+        # keep the origin sample (index n//2) at the new origin (index shape//2)
+        rmin1 = shape[0]//2 - array.shape[0+offset]//2
         rmax1 = rmin1 + array.shape[0+offset]
 
     if dc <= 0:
@@ -77,7 +78,7 @@ def pad(array, shape):
     else:
         cmin0 = 0
         cmax0 = array.shape[1]
-        cmin1 = (shape[1] - array.shape[1+offset])//2
+        cmin1 = shape[1]//2 - array.shape[1+offset]//2
         cmax1 = cmin1 + array.shape[1+offset]
 
     if array.ndim < 3:
